@@ -27,6 +27,16 @@ def make_case(rng, tier):
         case = gen.gen_case(rng, min_vars=3, max_vars=4, max_dom=2, palettes=("bin", "dec"), max_space=2000, initial=True, var_costs=False,
                             nary=False, unary=False, shapes=("chain", "star", "tree"))
         case["tie_rich"] = True
+        if rng.random() < 0.6:
+            # names whose lexical order differs from their length / numeric order (x10 < x2): every tie-break in the
+            # protocol must use one and the same order
+            pool = ["x%d" % i for i in range(1, 14)]
+            new = rng.sample(pool, len(case["variables"]))
+            ren = {v["name"]: new[i] for i, v in enumerate(case["variables"])}
+            for v in case["variables"]:
+                v["name"] = ren[v["name"]]
+            for c in case["constraints"]:
+                c["scope"] = [ren[n] for n in c["scope"]]
         return case
     return gen.gen_case(rng, min_vars=2, max_vars=6, max_dom=4 if rng.random() < 0.3 else 3,
                         palettes=("ties", "distinct", "float", "neg", "bigbase"), max_space=2000, initial=True,
